@@ -68,6 +68,9 @@ func fileClientFor(dir string, m model.KV, text bool) (*setec.FileClient, map[st
 		doc[n] = map[string]any{"secret": sec}
 		served[n] = n != "" && val != ""
 	}
+	// hand-maintained entries that carry a value but no usable version number
+	doc["zz-version-zero"] = map[string]any{"secret": map[string]any{"Version": 0, "Value": []byte("zero")}}
+	doc["zz-version-omitted"] = map[string]any{"secret": map[string]any{"TextValue": "omitted"}}
 	b, err := json.Marshal(doc)
 	if err != nil {
 		return nil, nil, err
@@ -159,6 +162,14 @@ func runC09(t *testing.T, c CondCase) (*h.Violation, h.Info) {
 			s := tr.M[op.Name]
 			if ferr != nil || sv == nil || uint32(sv.Version) != s.Active || !bytes.Equal(sv.Value, []byte(s.Vers[s.Active])) {
 				return h.V("fileclient-returns-active", "step %d: FileClient.GetIfChanged(%q,%d) = %v,%v; want v%d %q", i, op.Name, ver, sv, ferr, s.Active, s.Vers[s.Active]), info
+			}
+		}
+		// entries without a version number: however the client treats them, "V = 0 means unconditional"
+		for _, zn := range []string{"zz-version-zero", "zz-version-omitted"} {
+			g, gerr := fc.Get(context.Background(), zn)
+			cv, cerr := fc.GetIfChanged(context.Background(), zn, 0)
+			if errors.Is(cerr, api.ErrValueNotChanged) || (gerr == nil) != (cerr == nil) || (gerr == nil && (cv == nil || g == nil || cv.Version != g.Version || !bytes.Equal(cv.Value, g.Value))) {
+				return h.V("fileclient-v0-is-unconditional", "secrets-file entry %q: Get = %v,%v but GetIfChanged(name, 0) = %v,%v", zn, g, gerr, cv, cerr), info
 			}
 		}
 		sv, ferr = fc.Get(context.Background(), op.Name)
